@@ -17,12 +17,12 @@ func init() {
 			"an invariant monitor walks the returned []Peer2PeerConnection and []Peer: unique (src,dst), no self/ip-ip/empty entries, IP peers single contiguous pairwise-disjoint ranges covering 0.0.0.0-255.255.255.255, All flag <=> three full ranges, per-protocol ranges sorted/disjoint/non-adjacent within 1..65535; " +
 			"non-trivial = the result has an entry with a partial (non-All) connection or at least two IP peers; distinct = world content hash + family",
 		Assumptions:       []string{"inputs are API-admissible", "IP peer ranges are read from Peer.IP() and parsed by our own dotted-quad parser"},
-		NumCases:          func(tier string, _ int64) int { return tierN(tier, 1800+nFixtureCases, 80000+nFixtureCases) },
+		NumCases:          func(tier string, _ int64) int { return tierN(tier, 1800, 80000) + nFix(tier) },
 		Run:               runC05,
 		MinNonTrivial:     400,
 		MinEffectiveShare: 0.5,
 		RequiredEvents: map[string]int64{"entries_checked": 5000, "ip_peers_checked": 1000, "partial_connections": 1000, "all_connections": 500,
-			"multi_range_connections": 100, "family_canon": 100, "family_anp": 100, "family_ingress": 100, "family_exposure": 100, "family_focus": 100, "family_fixture": 100},
+			"multi_range_connections": 100, "family_canon": 100, "family_anp": 100, "family_ingress": 100, "family_exposure": 100, "family_focus": 100, "family_fixture": 50},
 	})
 }
 
@@ -109,7 +109,7 @@ const nFixtureCases = 212
 
 func runC05Fixture(c *run.Ctx) {
 	r := c.Res
-	dir := fixtureFor(c.Repo, c.Idx)
+	dir := fixtureAt(c.Repo, c.Tier, c.Idx)
 	if dir == "" {
 		r.Discarded = "no fixtures"
 		return
@@ -137,7 +137,7 @@ func runC05Fixture(c *run.Ctx) {
 func runC05(c *run.Ctx) {
 	r := c.Res
 	g := c.R("world")
-	if c.Idx < nFixtureCases {
+	if c.Idx < nFix(c.Tier) {
 		runC05Fixture(c)
 		return
 	}
